@@ -133,6 +133,15 @@ def check_query_doc(query, doc, seen, sh=None):
     for n in nodes:
         key = (id(doc), n.location)
         if key in seen:
+            # this location was checked before (path, re-query): only make sure that THIS node's
+            # value is the object at its location (two nodes must not share a location by mistake)
+            try:
+                same = impl.follow(doc, n.location) is n.value
+            except Exception:  # noqa: BLE001
+                same = False
+            if not same:
+                out.append(("location-wrong-object", "location reaches node.value", {"location": list(n.location)},
+                            list(n.location)))
             continue
         seen.add(key)
         if sh is not None:
@@ -162,6 +171,16 @@ DEEP_DOCS = [
     [{"": {"": {"": 0}}}, {"\U0001F600": [1, 2, 3]}, {"/": 1, "\x7f": 2, "\\'": 3, "\\\\": 4}],
     {" ": {"\t": 1, "\b": 2, "\f": 3, "\r": 4}, "0": [1], "-1": {"1": 2}, "[0]": 1, "$": 2, "'a'": 3},
 ]
+# arrays / objects holding equal (==) but distinct values: every node's location is its own
+TWIN_DOCS = [
+    [{"a": 1}, {"a": 2}, {"a": 1}, {"a": 1.0}, {"a": True}],
+    [1, True, 1.0, 0, False, 0.0, -0.0, "", "", [], [], {}, {}, None, None, [1], [True], [1.0]],
+    {"p": [[0], [0], [False]], "q": [[0], [0]], "r": {"x": [1, 1, 1], "y": [1, 1, 1]}},
+    ["a", "a", ["a", "a"], {"k": "a", "l": "a"}, ["a", "a"]],
+]
+TWIN_QUERIES = ["$[?@.a == 1]", "$[?@ == true]", "$[?@ == 1]", "$[?@ == 0]", "$[?@]", "$[?@ == $[0]]", "$..[?@ == 1]",
+                "$..[?@ == 0 || @ == 'a']", "$[?@ != 2]", "$[*][?@]", "$..[?@][?@]", "$[?@ == @]", "$..[?length(@) == 1]",
+                "$[?@ == 'a', ?@ == 'a']", "$..*", "$[?@[0] == 0]", "$..[?@[0] == 1][0]", "$[?@ == ''][0]"]
 DEEP_QUERIES = ["$..*", "$..[*]", "$[*][*]", "$..[?@]", "$[?@]", "$..[-1]", "$..[::-1]", "$..[0,0]", "$[*]..*", "$"]
 
 
@@ -230,6 +249,11 @@ def run_shard(desc):
     else:
         for doc in DEEP_DOCS:
             for q in DEEP_QUERIES:
+                res = check_query_doc(q, doc, set(), sh)
+                if res:
+                    report(q, doc, res)
+        for doc in TWIN_DOCS:
+            for q in TWIN_QUERIES + DEEP_QUERIES:
                 res = check_query_doc(q, doc, set(), sh)
                 if res:
                     report(q, doc, res)
